@@ -36,6 +36,27 @@ MUTANTS = [
   "\t\tif err = ErrorIfInvalid(elem, yaml.MappingNode); err != nil {\n\t\t\tcontinue\n\t\t}", "\t\tif err = ErrorIfInvalid(elem, yaml.MappingNode); err != nil {\n\t\t\tbreak\n\t\t}"),
  ("M14 FieldSetter(name==\"\"): keeps the old tag/value when the old node is quoted (style test inverted)", "kyaml/yaml/fns.go",
   "\t\trn.SetYNode(s.Value.YNode())\n\t\treturn rn, nil\n\t}\n\n\t// Clearing nil fields:", "\t\tif rn.YNode().Style == 0 {\n\t\t\trn.SetYNode(s.Value.YNode())\n\t\t}\n\t\treturn rn, nil\n\t}\n\n\t// Clearing nil fields:"),
+ ("M16 ElementSetter: appends the element even when one was replaced", "kyaml/yaml/fns.go",
+  "\tif !matchingElementFound {\n\t\trn.YNode().Content = append(rn.YNode().Content, e.Element)\n\t}", "\tif !matchingElementFound || true {\n\t\trn.YNode().Content = append(rn.YNode().Content, e.Element)\n\t}"),
+ ("M17 ElementSetter: keeps empty-mapping elements", "kyaml/yaml/fns.go",
+  "\t\tif IsMissingOrNull(newNode) || IsEmptyMap(newNode) {\n\t\t\tcontinue\n\t\t}", "\t\tif IsMissingOrNull(newNode) {\n\t\t\tcontinue\n\t\t}"),
+ ("M18 FieldClearer IfEmpty: clears non-empty values too", "kyaml/yaml/fns.go",
+  "\t\t\tif len(value.Content) > 0 {\n\t\t\t\treturn true\n\t\t\t}", "\t\t\tif len(value.Content) > 1 {\n\t\t\t\treturn true\n\t\t\t}"),
+ ("M19 ElementAppender: never returns the appended element", "kyaml/yaml/fns.go",
+  "\tif len(a.Elements) == 1 {\n\t\treturn NewRNode(a.Elements[0]), nil\n\t}", "\tif len(a.Elements) == 2 {\n\t\treturn NewRNode(a.Elements[0]), nil\n\t}"),
+ ("M20 convertSliceIndex: name[i] loses the name", "kyaml/yaml/rnode.go",
+  "\t\tif groups[1] != \"\" {\n\t\t\tres = append(res, groups[1])\n\t\t}", "\t\tif groups[1] == \"\" {\n\t\t\tres = append(res, groups[1])\n\t\t}"),
+ ("M21 ElementMatcher: MatchAnyValue tests the value anyway", "kyaml/yaml/fns.go",
+  "\t\t\tif e.MatchAnyValue {\n\t\t\t\tfield, err = elem.Pipe(Get(e.Keys[i]))", "\t\t\tif e.MatchAnyValue && len(e.Values) > 5 {\n\t\t\t\tfield, err = elem.Pipe(Get(e.Keys[i]))"),
+ ("M22 VisitFields: visits in reverse order", "kyaml/yaml/rnode.go",
+  "\tfor _, fieldName := range srcFieldNames {\n\t\tif err := fn(rn.Field(fieldName)); err != nil {", "\tfor i := len(srcFieldNames) - 1; i >= 0; i-- {\n\t\tfieldName := srcFieldNames[i]\n\t\tif err := fn(rn.Field(fieldName)); err != nil {"),
+ ("M23 LabelSetter: value no longer quoted", "kyaml/yaml/kfns.go",
+  "func (s LabelSetter) Filter(rn *RNode) (*RNode, error) {\n\tv := NewStringRNode(s.Value)\n\t// some tools get confused about the type if labels are not quoted\n\tv.YNode().Style = yaml.SingleQuotedStyle", "func (s LabelSetter) Filter(rn *RNode) (*RNode, error) {\n\tv := NewStringRNode(s.Value)"),
+ ("M24 seeded C14-e PathSplitter: glue uses the previous raw piece", "kyaml/utils/pathsplitter.go",
+  "\t\tlast := len(res) - 1\n\t\tif strings.HasSuffix(res[last], `\\`) {\n\t\t\tres[last] = strings.TrimSuffix(res[last], `\\`) + delimiter + ps[i]",
+  "\t\tif prev := ps[i-1]; strings.HasSuffix(prev, `\\`) {\n\t\t\tres[len(res)-1] = strings.TrimSuffix(prev, `\\`) + delimiter + ps[i]"),
+ ("M25 seeded C14-f ElementSetter: drops empty sequences too", "kyaml/yaml/fns.go",
+  "\t\tif IsMissingOrNull(newNode) || IsEmptyMap(newNode) {\n\t\t\tcontinue\n\t\t}", "\t\tif newNode.IsNilOrEmpty() {\n\t\t\tcontinue\n\t\t}"),
  ("M15 getFilter: '-' treated as index 0", "kyaml/yaml/fns.go",
   "\t\treturn GetElementByIndex(-1), nil", "\t\treturn GetElementByIndex(0), nil"),
 ]
@@ -77,7 +98,7 @@ def run_one(name, rel, old, new):
         classes = {}
         for v in meta["violations"]:
             classes[v["class"]] = classes.get(v["class"], 0) + 1
-        new_classes = {k: v for k, v in classes.items() if k != "C14/panic-last-on-empty"}
+        new_classes = {k: v for k, v in classes.items() if k != "C14/none"}
         caught = bool(mism) or bool(new_classes) or not ok
         return name, "%s  mismatches=%d/%d  oracle=%s" % ("CAUGHT" if caught else "MISSED", len(mism), meta["model_cases"], new_classes)
     finally:
